@@ -14,7 +14,7 @@ func init() {
 }
 
 // see specs/Split.tla: Chars, SegKinds, IFSNames
-var splitChars = []string{"x", "SP", "TAB", ",", ":", "U1", "CR"}
+var splitChars = []string{"x", "SP", "TAB", ",", "1", "U1", "CR"}
 
 var splitIFS = []struct {
 	name  string
@@ -25,10 +25,10 @@ var splitIFS = []struct {
 	{"default", false, " \t\n"},
 	{"sp_comma", false, " ,"},
 	{"comma", false, ","},
-	{"colon", false, ":"},
+	{"one", false, "1"},
 	{"empty", false, ""},
 	{"sp_u1", false, " é"},
-	{"comma_colon", false, ",:"},
+	{"comma_one", false, ",1"},
 }
 
 type splitCase struct {
@@ -79,7 +79,10 @@ func splitWord(segs []int, variant string, env *interp.ExecEnv) ast.Word {
 		switch {
 		case id <= n:
 			c := symbol(splitChars[id-1])
-			if variant == "var" {
+			if variant == "arith" && c == "1" {
+				// the digit comes out of an arithmetic expansion
+				w = append(w, &ast.ArithExp{Expr: ast.Word{&ast.Lit{Value: "3 - 2"}}})
+			} else if variant != "lit" {
 				name := fmt.Sprintf("v%d", id)
 				env.Set(name, c)
 				w = append(w, &ast.ParamExp{Name: &ast.Lit{Value: name}, Braces: i%2 == 0})
@@ -118,7 +121,7 @@ func splitMode(in *bufio.Scanner, out *json.Encoder) error {
 			return err
 		}
 		o := splitObs{Segs: c.Segs, Obs: map[string][][][]string{}}
-		for _, variant := range []string{"lit", "var"} {
+		for _, variant := range []string{"lit", "var", "arith"} {
 			per := [][][]string{}
 			for _, ifs := range splitIFS {
 				if ifs.unset {
